@@ -12,7 +12,7 @@ import (
 	"github.com/echoface/be_indexer/roaringidx"
 )
 
-const c10Rule = "histories of 20..200 retrievals interleaved over 1..3 posting-list indexes (k-groups and compact, default/pattern/range fields) and a roaring index that share the process-wide collector and bitmap pools; about 15% of the retrievals fail (unsupported value on a known field), debug options on at random, plain Retrieve and recording-collector passes, roaring scanners reset or re-created; each answer is compared with the pure model and the specification in Coq, a tenth of them also with a freshly built real index, and every assignment is deep-copied before the call and compared after. every other list Retrieve returns is overwritten in place by the caller, the others are kept and re-read at the end; a dedicated history of untargeted retrievals (empty assignment, unknown fields, nil values) on indexes with match-everything conjunctions; Non-trivial = the history contains a failing retrieval followed by a successful one that returns documents; distinct = distinct input"
+const c10Rule = "histories of 20..200 retrievals interleaved over 1..3 posting-list indexes (k-groups and compact, default/pattern/range fields) and a roaring index that share the process-wide collector and bitmap pools; about 15% of the retrievals fail (unsupported value on a known field), debug options on at random, plain Retrieve and recording-collector passes, roaring scanners reset or re-created; each answer is compared with the pure model and the specification in Coq, a tenth of them also with a freshly built real index, and every assignment is deep-copied before the call and compared after. every other list Retrieve returns is overwritten in place by the caller, the others are kept and re-read at the end; a dedicated history of untargeted retrievals (empty assignment, unknown fields, nil values) on indexes with match-everything conjunctions; histories on fields named by the dense id allocator (known, unknown and repeated unknown texts), posting-list and roaring; Non-trivial = the history contains a failing retrieval followed by a successful one that returns documents; distinct = distinct input"
 
 type histCase struct {
 	Hist10     bool    `json:"hist10"`
@@ -304,6 +304,27 @@ func init() {
 					h.Order = append(h.Order, 0)
 				}
 				add(h)
+			}
+			// dedicated: fields whose texts are named by the library's DENSE id allocator (a dictionary filled at indexing
+			// time): looking a text up at query time -- known, unknown, the same unknown one again -- must leave the
+			// dictionary as it was, on the posting-list indexes and on the roaring index
+			denseAllocatorCases(func(in interface{}) {
+				c := in.(eCase)
+				green := eQuery{A: []eAssign{{F: 0, V: tvStr("green")}}}
+				c.Queries = append([]eQuery{green, green, {A: []eAssign{{F: 0, V: tvStr("beijing")}}}, green, green}, c.Queries...)
+				h := histCase{Hist10: true, Cases: []eCase{c}}
+				for range c.Queries {
+					h.Order = append(h.Order, 0)
+				}
+				add(h)
+			})
+			{
+				c := rCase{Fields: []rField{{F: 0, Cont: "default", Parser: "dense"}, {F: 1, Cont: "default"}}}
+				c.Docs = []eDoc{{ID: 1, Cons: []eConj{{{F: 0, Inc: true, V: tvStr("red")}}}}, {ID: 2, Cons: []eConj{{{F: 0, Inc: true, V: tvStr("blue")}}}}, {ID: 3, Cons: []eConj{{{F: 0, Inc: false, V: tvStr("red")}, {F: 1, Inc: true, V: tvInt("int", 1)}}}}}
+				for i, t := range []string{"green", "green", "red", "green", "green", "blue", "grey", "grey"} {
+					c.Ops = append(c.Ops, rOp{S: i % 2, Op: "reset"}, rOp{S: i % 2, Op: []string{"retrieve", "docs"}[i/2%2], A: []eAssign{{F: 0, V: tvStr(t)}, {F: 1, V: tvInt("int", 1)}}}, rOp{S: i % 2, Op: "raw"})
+				}
+				add(c)
 			}
 			// roaring histories with failing retrievals: a retrieval that fails half-way (after some field's
 			// bitmaps went into the temporary bitmap) must not leak into later retrievals of ANY scanner
